@@ -75,7 +75,8 @@ def strategy_(draw, tier):
         stale[n] = ["BO:i:%d" % draw(st.integers(0, 50)), "NO:i:%d" % draw(st.integers(0, 5))]
     text1 = gen_graph.gfa_text(g, with_seq=False, order_seed=draw(st.integers(0, 999)))
     text2 = gen_graph.gfa_text(g, with_seq=False, order_seed=draw(st.integers(0, 999)), extra_tags=stale)
-    return {"gfa": text1, "gfa2": text2, "order": ",".join(order), "by_chrom": draw(st.integers(0, 1)) == 1}
+    return {"gfa": text1, "gfa2": text2, "order": ",".join(order), "by_chrom": draw(st.integers(0, 1)) == 1,
+            "via": draw(st.sampled_from(["api", "api", "cli"]))}
 
 
 def strategy(tier):
@@ -178,10 +179,10 @@ def run_case(case):
             # outside the statement (no articulation point / end element without rank-0 segment): not judged
             return core.Result(False, ["excluded:" + dec["shape"]])
     with core.workdir() as d:
-        res, files = ordergfa.run_order(d, case["gfa"], case["order"], case["by_chrom"], sub="o1")
+        res, files = ordergfa.run_order(d, case["gfa"], case["order"], case["by_chrom"], sub="o1", via=case.get("via", "api"))
         core.check(res[0] == "ok", "order_gfa failed: %s", res)
         tags = collect_tags(files, case["by_chrom"], order)
-        res2, files2 = ordergfa.run_order(d, case["gfa2"], case["order"], case["by_chrom"], sub="o2")
+        res2, files2 = ordergfa.run_order(d, case["gfa2"], case["order"], case["by_chrom"], sub="o2", via=case.get("via", "api"))
         core.check(res2[0] == "ok", "order_gfa failed on the permuted file with stale tags: %s", res2)
         tags2 = collect_tags(files2, case["by_chrom"], order)
     want_nodes = set()
@@ -198,6 +199,7 @@ def run_case(case):
     if any(l[1] != l[3] for l in links):
         classes.add("inverted_link")
     classes.add("by_chrom" if case["by_chrom"] else "complete")
+    classes.add("via:" + case.get("via", "api"))
     if case.get("real_window"):
         classes.add("real_graph_window")
     return core.Result(nontrivial, sorted(classes))
